@@ -1325,6 +1325,10 @@ M('C01', 'original defect: A[inds] = B compares the bunched leg of the permuted 
   "                other = Array.from_ndarray(other.to_ndarray(), legs, other.dtype, other.qtotal, labels=other._labels)\n", "                pass\n",
   'BLOCKS-permute-compare')
 
+M('C18', 'original defect: accumulated trunc_err not part of the resume data', ALG,
+  "        data['trunc_err'] = self.trunc_err\n", "",
+  'RESUME-accumulators')
+
 # ---------------------------------------------------------------- C16 / C19
 M('C16', 'GMRES restart: relative residual norm used for normalisation (round-3 seed b)', KRY,
   """        self.total_error.append([npc.norm(self.rs[-1]) / self.b_norm])
